@@ -12,8 +12,8 @@ def run(cmd, cwd):
 
 def main():
     only = sys.argv[1:]
-    for d in sorted(glob.glob("/tmp/mut-C*/OUT/*") + glob.glob("/tmp/mut2-C*/OUT/*")):
-        pid = d.split("/")[2].replace("mut2-", "").replace("mut-", "")
+    for d in sorted(glob.glob("/tmp/mut-C*/OUT/*") + glob.glob("/tmp/mut2-C*/OUT/*") + glob.glob("/tmp/mut3-C*/OUT/*")):
+        pid = d.split("/")[2].replace("mut3-", "").replace("mut2-", "").replace("mut-", "")
         x = os.path.basename(d)
         sid = "%s-%s" % (pid, x)
         if only and sid not in only:
